@@ -28,7 +28,11 @@ class C19(object):
             "distribution_from_data with base=None or no base at all: the base is then dit.ditParams['base'], left at its "
             "default or set (linear, 2, e, 10, 0.5) for the call and restored. binned() on 2-d input: 1-4 series of 2-40 "
             "samples as the columns of an array, a list of lists or a list of tuples, each series with a range and offset "
-            "of its own, judged series by series exactly like a 1-d call; bins / style sometimes left to their defaults")
+            "of its own, judged series by series exactly like a 1-d call; bins / style sometimes left to their defaults. "
+            "Containers: 1-4 calls in one fresh process on equal samples given as a list, a tuple, an array or (scalar "
+            "symbols, estimators only) a string, mostly the same container throughout; an estimator call evaluates 1-5 of "
+            "entropy_0/1/2 and get_counts in any order, with repeats, each value judged against its formula on the window "
+            "counts (get_counts: against the window counts themselves)")
     tolerances = {'counts and frequencies': 'exact (count / windows, one float division)', 'entropies': 'rtol 1e-9'}
     exhaustive = {'thorough': True}
     modelled = ("digamma comes from SciPy on both sides; binning is decided by the oracle (range, monotonicity, threshold "
@@ -171,6 +175,52 @@ class C19(object):
             if rng.random() < 0.15:
                 c.update({'bins': 2, 'style': 'maxent', 'defaults': True})    # binned(ts): bins=2, style='maxent'
             yield c
+        # --- the samples in every container the functions accept (list, tuple, string, array), the estimators and
+        #     get_counts in any order and repeated, one call or several calls in one process on equal data
+        for _ in range(n // 3):
+            k = rng.randint(1, 4)
+            ln = rng.randint(2, 30)
+            vector = rng.random() < 0.3
+            if vector:
+                w = rng.randint(2, 3)
+                data = [[rng.randrange(min(k, 2)) for _j in range(w)] for _i in range(ln)]
+            else:
+                data = [[0]]
+                for _i in range(ln - 1):
+                    data.append([data[-1][0] if rng.random() < 0.3 else rng.randrange(k)])
+            conts = ['list', 'tuple', 'array'] + ([] if vector else ['str'])
+            cont0 = rng.choice(conts)
+            L0 = rng.randint(1, min(ln, 4))
+            steps = []
+            for _i in range(rng.randint(1, 4)):
+                Ls = L0 if rng.random() < 0.8 else rng.randint(1, min(ln, 4))
+                kd = rng.choice(['entropy', 'entropy', 'entropy', 'dist', 'cond'])
+                cont = cont0 if rng.random() < 0.75 else rng.choice(conts)
+                if kd != 'entropy' and cont == 'str':
+                    cont = 'tuple'     # (the words of a string are not compared for dist / cond; see `in_container`)
+                st = {'kind': kd, 'L': Ls, 'base': rng.choice(['linear', 2, 'e']), 'trim': rng.random() < 0.7,
+                      'h': Ls if rng.random() < 0.4 else rng.randint(0, Ls), 'container': cont}
+                if kd == 'entropy':
+                    if rng.random() < 0.3:
+                        st['order'] = list(self.ESTIMATORS)
+                    else:
+                        st['order'] = [rng.choice(self.ESTIMATORS + ('get_counts',)) for _j in range(rng.randint(1, 5))]
+                steps.append(st)
+            yield {'kind': 'session', 'data': data, 'vector': vector, 'L': max(s['L'] for s in steps), 'base': 'linear',
+                   'trim': True, 'h': 0, 'steps': steps}
+
+    ESTIMATORS = ('entropy_0', 'entropy_1', 'entropy_2')
+
+    @staticmethod
+    def in_container(pydata, vector, cont):
+        """The same samples in another of the containers the inference functions accept."""
+        if cont == 'tuple' or (cont == 'str' and vector):
+            return tuple(pydata)
+        if cont == 'str':
+            return ''.join('abcdefghij'[x] for x in pydata)      # order of the letters = order of the symbols
+        if cont == 'array':
+            return np.array([list(x) for x in pydata]) if vector else np.array(pydata)
+        return list(pydata)
 
     def shrink(self, case):
         data = case['data']
@@ -264,6 +314,8 @@ class C19(object):
         r.features = ['kind=session', 'vector=%s' % case['vector'], 'len=%d' % len(case['data']), 'calls=%d' % len(steps)]
         r.features += sorted(set('then=%s>%s%s' % (a['kind'], b['kind'], '' if a['L'] == b['L'] else '(other L)')
                                  for a, b in zip(steps, steps[1:])))
+        if any('container' in s for s in steps):
+            r.features.append('containers=%s' % '+'.join(sorted(set(s.get('container', 'list') for s in steps))))
         said = []
         for i, st in enumerate(steps):
             sub = {k: v for k, v in case.items() if k != 'steps'}
@@ -306,6 +358,13 @@ class C19(object):
 
         if kind == 'binning':
             return self.run_binning(case, r, binned, drv)
+        cont = case.get('container', 'list')
+        arg = pydata            # what the functions are given; the oracle keeps reading the list `pydata`
+        if 'container' in case:
+            if cont == 'str' and (vector or kind != 'entropy'):
+                cont = 'tuple'
+            r.features.append('container=%s' % cont)
+            arg = self.in_container(pydata, vector, cont)
 
         words, nwin = drv.call('counts', [L, data])
         mcounts = {tuple(tuple(s) for s in w): c for w, c in words}
@@ -329,11 +388,11 @@ class C19(object):
                     if pb != 'default':
                         dit.ditParams['base'] = pb
                     base = dit.ditParams['base']
-                    d = distribution_from_data(pydata, L, trim=case['trim'], **kw)
+                    d = distribution_from_data(arg, L, trim=case['trim'], **kw)
                 finally:
                     dit.ditParams['base'] = saved
             else:
-                d = distribution_from_data(pydata, L, trim=case['trim'], base=base)
+                d = distribution_from_data(arg, L, trim=case['trim'], base=base)
             got = {}
             for o, v in zip(d.outcomes, d.pmf):
                 key = o if (L > 1 or isinstance(o, tuple) and vector is False and False) else o
@@ -376,7 +435,7 @@ class C19(object):
             else:
                 pyhint = None
             r.features.append('alphabet-hint=%s' % (pyhint is not None))
-            hist, cC, hC, alphabet = counts_from_data(pydata, h, f, alphabet=pyhint)
+            hist, cC, hC, alphabet = counts_from_data(arg, h, f, alphabet=pyhint)
             mc, mh = drv.call('condcounts', [h, f, data])
             import itertools
             futures = list(itertools.product(alphabet, repeat=f))
@@ -457,18 +516,51 @@ class C19(object):
             ref1 = math.log2(math.e) * sum(c / N * (digamma(N) - digamma(c)) for c in cs)
             ref2 = math.log2(math.e) * sum(c / N * (digamma(N) - digamma(c) + math.log(2)
                                                      + sum((-1) ** j / j for j in range(1, c))) for c in cs)
+            from dit.inference import get_counts
+            fns = {'entropy_0': (entropy_0, ref0), 'entropy_1': (entropy_1, ref1), 'entropy_2': (entropy_2, ref2)}
+            order = case.get('order', list(self.ESTIMATORS))
+            if 'order' in case:
+                r.features += ['estimators=%s' % ('0>1>2' if order == list(self.ESTIMATORS) else
+                                                   'no entropy_0' if 'entropy_0' not in order else
+                                                   'entropy_0 last' if order.index('entropy_0') == len(order) - 1 else
+                                                   'entropy_0 then others'),
+                               'get_counts=%s' % ('get_counts' in order), 'evaluations=%d' % len(order)]
             vals = {}
-            for name, fn, ref in (('entropy_0', entropy_0, ref0), ('entropy_1', entropy_1, ref1), ('entropy_2', entropy_2, ref2)):
+            done = []
+            for name in order:
+                ctx = ''
+                if 'order' in case or 'container' in case:
+                    ctx = ' (samples given as %s%s)' % ({'list': 'a list', 'tuple': 'a tuple', 'str': 'a string',
+                                                         'array': 'an array'}[cont],
+                                                        ', after %s on the same samples' % ', '.join(done) if done else '')
+                if name == 'get_counts':
+                    # the counts every estimator starts from: one entry per distinct word, its number of windows
+                    try:
+                        got = sorted(float(x) for x in np.asarray(get_counts(arg, L)).ravel())
+                    except Exception as e:  # noqa
+                        r.oracle_fail = 'get_counts raised %s: %s%s' % (type(e).__name__, str(e)[:100], ctx)
+                        return r
+                    vals['%d:get_counts' % len(done)] = got
+                    if got != sorted(float(c) for c in cs):
+                        r.mismatch = 'get_counts: impl %s, model counts %s' % (got, sorted(cs))
+                        r.oracle_fail = ('get_counts(data, %d) = %s%s, but the distinct windows of length %d occur %s times'
+                                         % (L, got, ctx, L, sorted(cs)))
+                        break
+                    done.append(name)
+                    continue
+                fn, ref = fns[name]
                 try:
-                    v = float(fn(pydata, L))
+                    v = float(fn(arg, L))
                 except Exception as e:  # noqa
-                    r.oracle_fail = '%s raised %s: %s' % (name, type(e).__name__, str(e)[:100])
+                    r.oracle_fail = '%s raised %s: %s%s' % (name, type(e).__name__, str(e)[:100], ctx)
                     return r
-                vals[name] = v
+                vals[name if 'order' not in case else '%d:%s' % (len(done), name)] = v
                 if not (abs(v - ref) <= 1e-9 * max(1.0, abs(ref))):
                     r.mismatch = '%s: impl %r, formula on the model counts %r' % (name, v, float(ref))
-                    r.oracle_fail = '%s = %r, but its defining formula on the window counts gives %r' % (name, v, float(ref))
+                    r.oracle_fail = ('%s = %r%s, but its defining formula on the window counts gives %r'
+                                     % (name, v, ctx, float(ref)))
                     break
+                done.append(name)
             r.detail = {'impl': vals, 'counts': cs}
             return r
         return r
